@@ -5,7 +5,7 @@
    working tree.  What ties the model to the code is the correspondence of harness/props/C20.py. *)
 From Coq Require Import List ZArith Bool.
 From PV Require Import lib.Sx lib.Str lib.Result model.Generated model.Detect spec.SpecDetect spec.SpecOwn
-  proofs.DetectFacts proofs.DetectOwnFacts model.OwnWrite spec.SpecOwnNodes proofs.DetectNodeFacts proofs.DetectVttFacts.
+  proofs.DetectFacts proofs.DetectOwnFacts model.OwnWrite spec.SpecOwnNodes proofs.DetectNodeFacts proofs.DetectVttFacts model.SccWrite model.OwnWriteScc proofs.OwnSccFacts.
 Import ListNotations.
 Open Scope Z_scope.
 
@@ -95,6 +95,19 @@ Print Assumptions C20_own_nodes_mdvd.
 Theorem C20_own_nodes_vtt : forall langs, detect_format (vtt_write langs) = Ok (Some R_VTT).
 Proof. exact own_nodes_vtt. Qed.
 Print Assumptions C20_own_nodes_vtt.
+
+(* SCC from the text nodes: the caption text (OwnWrite.cap_text = "".join(get_text_nodes())) of the first language goes
+   through the SCC builders' writer model model/SccWrite.v (wrapping, rows, address codes, character codes, pre-roll,
+   timecodes).  Whenever that writer returns a document (it raises IndexError beyond 32 rows) the document is detected
+   as SCC: every character behind the header is a hex digit, ':', ';', TAB, blank, newline, 'x' or '-' (table facts over
+   the complete regenerated tables).  No hypothesis on text or times. *)
+Theorem C20_own_nodes_scc : forall langs doc, scc_write langs = Ok doc -> detect_format doc = Ok (Some R_SCC).
+Proof. exact own_nodes_scc. Qed.
+Print Assumptions C20_own_nodes_scc.
+Theorem C20_scc_writer_body_chars : forall caps doc, write caps = Ok doc ->
+  exists body, doc = scc_document body /\ forallb sccp body = true.
+Proof. exact write_shape. Qed.
+Print Assumptions C20_scc_writer_body_chars.
 
 (* DFXP / SAMI (documents produced by bs4, not modelled): what detection needs of their skeleton.  A document that
    contains the root element's closing tag is DFXP whatever else it contains; a document that opens with the <sami root
@@ -243,3 +256,12 @@ Example C20_example_skeletons :
   free before_sami (sami_document (lit "><body>{1}{2} --></body></sami>")) = true /\
   detect_format (sami_document (lit "><body>{1}{2} --></body></sami>")) = Ok (Some R_SAMI).
 Proof. vm_compute. repeat split. Qed.
+
+(* SCC from the nodes: text made of the other formats' markers *)
+Example C20_example_own_nodes_scc :
+  let langs := [[mk_ocap 2000000 4000000 [OText (lit "</tt> WEBVTT"); OBreak; OText (lit "<sami {1}{2} -->")]]] in
+  match scc_write langs with
+  | Ok doc => detect_format doc = Ok (Some R_SCC) /\ is_prefix (lit "Scenarist_SCC V1.0") doc = true
+  | Err _ => False
+  end.
+Proof. vm_compute. split; reflexivity. Qed.
